@@ -128,6 +128,22 @@ Definition add_operation (c : cfg) (o : op) (st : pstate) : result pstate :=
                  ps_methods := ps_methods st ++ [m] |}
   end.
 
+(* the tests of add_operation / add_method as a function of the operation alone (used in statements) *)
+Definition op_refusal (c : cfg) (o : op) : option refusal :=
+  match o_name o with
+  | None => Some Anonymous
+  | Some _ => if o_bad_mixin o then Some BadMixinArgs
+              else if is_sub (o_kind o) && negb (c_async c) then Some SubscriptionSync
+              else None
+  end.
+
+(* keys of _result_types_files after all operations: module file names in first-occurrence order *)
+Definition result_files_from (ops : list op) (acc : list chars) : list chars :=
+  fold_left (fun acc o => match o_name o with
+                          | Some n => dict_add (py (op_module n)) acc
+                          | None => acc end) ops acc.
+Definition result_files (ops : list op) : list chars := result_files_from ops [].
+
 Fixpoint add_operations (c : cfg) (ops : list op) (st : pstate) : result pstate :=
   match ops with
   | [] => Ok st
